@@ -183,7 +183,8 @@ impl Property for C11 {
                     continue;
                 }
                 for (id, cm) in ds.chans.iter() {
-                    if cm.cfg.kind != Kind::Unreliable {
+                    if cm.cfg.kind != Kind::Unreliable || cm.maybe_dropped {
+                        // (a receive budget that may have been short legitimately drops unreliable messages)
                         continue;
                     }
                     for m in cm.msgs.iter() {
